@@ -127,6 +127,7 @@ def first_difference(a, b):
 def check_inprocess(ctx: Ctx, inp) -> None:
     from vfw.harness import engine_run, loopback
 
+    engine_run.preload()
     doc = build_doc(inp["doc"])
     config = engine_run.build_config(_cfg(inp))
     runs_ = []
@@ -150,6 +151,7 @@ def check_inprocess(ctx: Ctx, inp) -> None:
 def check_workers(ctx: Ctx, inp) -> None:
     from vfw.harness import engine_run, loopback
 
+    engine_run.preload()
     phases = [p for p in inp["phases"] if p != "stateful"] or ["fuzzing"]
     doc = build_doc(dict(inp["doc"], fail_over=None))
     results = []
